@@ -29,10 +29,16 @@ class C15(Check):
     stubs = ['the sender and the transport (chunk boundaries, truncation)', 'final subscriber']
     assumptions = ['line items contain no newline; length-prefixed items fit the prefix']
     probe_names = ('nested_same_operator', 'concurrent_streams', 'item_at_prefix_sign_limit', 'cut_inside_prefix', 'cut_between_prefix_and_payload', 'empty_segment', 'one_unit_segments', 'empty_item', 'empty_list',
-                   'truncated', 'swept_all_single_cuts', 'prefix:1', 'prefix:2', 'prefix:4', 'prefix:8', 'order:big', 'line', 'chunk_without_newline')
+                   'stream>=2MiB', 'stream>=4MiB', 'truncated', 'swept_all_single_cuts', 'prefix:1', 'prefix:2', 'prefix:4', 'prefix:8', 'order:big', 'line', 'chunk_without_newline')
     quick_cap = 300000
 
     def gen(self, rng, tier):
+        if rng.random() < (0.002 if tier == 'quick' else 0.01):
+            # one long stream (several MiB through one subscription); the items are generated inside execute
+            return {'framing': rng.choice(['line', 'lp', 'lp']), 'prefix': rng.choice([2, 4, 8]), 'order': rng.choice(['little', 'big']),
+                    'long': {'n': rng.choice([3000, 6000, 9000]), 'size': rng.choice([700, 1000, 1500]),
+                             'chunk': rng.choice([50000, 65536, 100003, 8191])},
+                    'items': [], 'cuts': [], 'truncate': None, 'sweep': False}
         framing = rng.choice(['line', 'lp'])
         n = rng.choice([0, 1, 2, 3, 5, 8]) if tier == 'quick' else rng.choice([0, 1, 3, 8, 20, 60])
         case = {'framing': framing}
@@ -79,6 +85,10 @@ class C15(Check):
 
     def valid(self, case):
         try:
+            lg = case.get('long')
+            if lg is not None:
+                return (case['framing'] in ('line', 'lp') and case.get('prefix') in (2, 4, 8) and case.get('order') in ('little', 'big') and
+                        0 <= lg['n'] <= 10000 and 1 <= lg['size'] <= 2000 and lg['chunk'] >= 1000 and not case['items'])
             if case['framing'] == 'line':
                 return all(isinstance(i, str) and '\n' not in i for i in case['items']) and all(isinstance(c, int) and c >= 0 for c in case['cuts'])
             ps = case['prefix']
@@ -121,7 +131,41 @@ class C15(Check):
             return False
         return True
 
+    def execute_long(self, case):
+        out = Outcome()
+        lg = case['long']
+        line_mode = case['framing'] == 'line'
+        if line_mode:
+            items = [chr(97 + i % 26) * (lg['size'] + i % 13) for i in range(lg['n'])]
+            framed, t = collect(rx.from_(items).pipe(line.frame()))
+            stream = ''.join(framed)
+            op = line.unframe()
+        else:
+            items = [bytes([i % 251]) * (lg['size'] + i % 13) for i in range(lg['n'])]
+            framed, t = collect(rx.from_(items).pipe(lp.frame(prefix_size=case['prefix'], byteorder=case['order'])))
+            stream = b''.join(framed)
+            op = lp.unframe(prefix_size=case['prefix'], byteorder=case['order'])
+        c = lg['chunk']
+        chunks = [stream[a:a + c] for a in range(0, len(stream), c)]
+        got, term, _ = drive(chunks, op)
+        if term is None or term[0] != 'completed' or got != items:
+            k = next((i for i, (a, b) in enumerate(zip(got, items)) if a != b), min(len(got), len(items)))
+            out.add('roundtrip', case['framing'], {'long_stream_bytes': len(stream), 'chunk': c, 'items': len(items), 'got_items': len(got),
+                                                   'first_difference_at_item': k, 'terminal': repr(term),
+                                                   'got_len': len(got[k]) if k < len(got) else None,
+                                                   'expected_len': len(items[k]) if k < len(items) else None})
+        out.steps = len(chunks)
+        out.ticks = len(stream)
+        out.nontrivial = True
+        out.shape = ('long', case['framing'], case['prefix'], case['order'], lg['n'], lg['size'], c)
+        out.digest = repr((len(stream), len(got), repr(term), [v.to_json() for v in out.violations]))
+        out.probes['stream>=2MiB'] += 1 if len(stream) >= 2 * 1024 * 1024 else 0
+        out.probes['stream>=4MiB'] += 1 if len(stream) >= 4 * 1024 * 1024 else 0
+        return out
+
     def execute(self, case):
+        if case.get('long') is not None:
+            return self.execute_long(case)
         out = Outcome()
         line_mode = case['framing'] == 'line'
         p = out.probes
